@@ -211,7 +211,7 @@ def run(ctx):
                          "G4": "truncation at every box boundary +-{0,1,4,8,hdr+4}; every byte for files <= 2 KiB",
                          "G5": "single deletion and adjacent swap of top-level and second-level boxes; deletion of any nested box with the size fields of all its ancestors adjusted",
                          "G6": "%d inputs: every instance of the BoxLayouts.tla box shapes%s" % (g6, "" if q else " and every truncation of the count-2 shape instances"),
-                         "G7": "%d files: every combination of child variants (CrossRefs.tla) of a traf with its init segment (tfhd/trun/senc/saiz/saio/sbgp/sgpd x clear, cenc, cbcs init or none) of an stbl (stsd/stts/ctts/stsc/stsz/stco/stss) and of the mfra of a two-fragment file (tfra counts, track ids, moof offsets, mfro size; decoded under the ISM flag too) deviating from the consistent baseline in at most %s children; %d of them consistent (must be accepted)" % (g7, "3" if q else "all", g7_consistent),
+                         "G7": "%d files: every combination of child variants (CrossRefs.tla) of a traf with its init segment (tfhd/trun/senc/saiz/saio/sbgp/sgpd x clear, cenc, cbcs init or none) of an stbl (stsd/stts/ctts/stsc/stsz/stco/stss) and of the mfra of a two-fragment file (tfra counts, track ids, moof offsets, mfro size; decoded under the ISM flag too) deviating from the consistent baseline in at most %s children; %d of them consistent (must be accepted)" % (g7, "3" if q else "5 (traf) / all (stbl, mfra)", g7_consistent),
                          "bases": "%d files (corpus + seeded slice of G1)" % nsel,
                          "configurations": "DecodeFile / lazy / DecodeFileSR x flags {none, ISM, start-on-moof, both}; DecodeBox / DecodeBoxSR loops; Info at 4 levels; Encode and EncodeSW in both modes with and without trun optimisation",
                          "budgets": "2 s + 20 us/byte wall, 16 MiB + 1024 x length allocated, workers under ulimit -v 6 GB", "fatal_worker_crashes": fatals}
